@@ -1121,3 +1121,33 @@ Lemma casemap_misplaced :
   span_text line_cm2 (tk 9 14 UMonth) = s "ch 20" /\          (* the month word is at 6..11 *)
   firstn 5 (skipn 6 line_cm2) = s "march".
 Proof. repeat split; vm_compute; reflexivity. Qed.
+
+(* ---- the same root cause breaks well-formedness: an EMPTY span after update_tokens ---- *)
+(* line 1 "est = 5" defines a variable named by the zone token; line 2 is
+   "ıııııKKK7𠀀 est may" (K = U+212A KELVIN SIGN, 𠀀 = U+20000, 4 bytes).  In the upper-cased copy
+   EST sits at bytes 20..23, in the lower-cased copy `may` at 23..26; in the line itself bytes
+   20..23 all belong to 𠀀 (character 9).  The Month highlight therefore starts at character 9, the
+   number 7 ends there, and the variable's update_tokens(20, 23) has start = end = 9: the start token
+   (index 2) is one past the end token (index 1), drain(2..2) removes nothing and (9,9) is inserted. *)
+Definition ui_of_text (lang text : str) : option (list (list uitoken)) :=
+  match exec64 CK0 default_config lang text with
+  | Ok r => Some (map (fun o => match o with Some lo => lo_ui lo | None => [] end) (er_lines r))
+  | Panic _ => None
+  end.
+
+Definition line_em : str :=
+  [305; 305; 305; 305; 305; 8490; 8490; 8490; 55; 131072; 32; 101; 115; 116; 32; 109; 97; 121]%N.
+
+Lemma pipeline_empty_span :
+  ui_of_text (s "en") (s "est = 5" ++ [10%N] ++ line_em)
+    = Some [[tk 0 3 UVariableDefination; tk 4 5 UOperator; tk 6 7 UNumber];
+            [tk 0 8 UText; tk 8 9 UNumber; tk 9 9 UVariableUse; tk 9 12 UMonth; tk 15 18 UText]] /\
+  ~ WF line_em [tk 0 8 UText; tk 8 9 UNumber; tk 9 9 UVariableUse; tk 9 12 UMonth; tk 15 18 UText] /\
+  get_position line_em 20 = 9 /\ get_position line_em 23 = 9.
+Proof.
+  split; [vm_compute; reflexivity|]. split; [|split; vm_compute; reflexivity].
+  intros [H _]. rewrite Forall_forall in H.
+  assert (Hin : In (tk 9 9 UVariableUse) [tk 0 8 UText; tk 8 9 UNumber; tk 9 9 UVariableUse; tk 9 12 UMonth; tk 15 18 UText])
+    by (cbn; auto).
+  apply H in Hin. destruct Hin as [Hlt _]. cbn in Hlt. lia.
+Qed.
